@@ -1,4 +1,168 @@
-/- Driver of the `metastaking` world (stub: to be written by the owner of this world). -/
+/-
+  Driver of the `metastaking` world: replays an ops file through `Mx.DualYield.step` and prints
+  one result line per op line.  Import-free apart from Core/Driver modules.
+
+  Op lines (written by harness/src/bin/w_metastaking.rs; everything after the request words is
+  resolved by the harness while executing on the real contracts):
+    stake    C   lp=A extra=E src=S merge=M   auth=1 callee=K lpfarm=N [safe=V] [-> st=N:A boosted=B lpout=N:A lpboosted=B]
+    stakeFor C U lp=A extra=E src=S merge=M   auth=X callee=K lpfarm=N [safe=V] [-> …]
+    claim    C D:X                            auth=1 callee=K [safe=V] [-> lpnew=N:A lprew=R stnew=N:A strew=R]
+    claimFor C D:X                            auth=X callee=K [safe=V] [-> …]
+  (`safe=V`, the pair's safe-price answer, is recorded whenever the view answers, also for failed calls)
+    unstake  C D:X M1 M2                      callee=K [-> lp=L lprew=R stk=S other=W unbond=N:A strew=R]
+    xfer     U V D:X
+    bad …                                     a call the proxy must reject
+    anything else                             environment (pool trades, time, direct farm use)
+  `callee=0`: the harness established (from the callees' own state, before the call) that a
+  callee rejects this call.  A failed call whose own guards pass in the model although
+  `callee=1` is printed as `R n stuck` (never produced by the harness → reported as a divergence).
+-/
+import MxModel.Core.DualYield
 import MxModel.Driver.Proto
 
-def main : IO Unit := Mx.Proto.mainLoop () (fun s _ => (s, none))
+open Mx Mx.DualYield Mx.Proto
+
+namespace Mx.MetaDriver
+
+structure DS where
+  st : St
+  lpKeys : List Nat
+  stKeys : List Nat
+  users : Nat
+
+def insertKey (k : Nat) : List Nat → List Nat
+  | [] => [k]
+  | x :: xs => if k < x then k :: x :: xs else if k = x then x :: xs else x :: insertKey k xs
+
+/-- `N:A` -/
+def pair? (w : String) : Option (Nat × Nat) :=
+  match w.splitOn ":" with
+  | [a, b] => do pure (← a.toNat?, ← b.toNat?)
+  | _ => none
+
+def pairs? (w : String) : Option (List (Nat × Nat)) :=
+  if w = "-" then some [] else (w.splitOn ",").mapM pair?
+
+def kvPair (ws : List String) (k : String) : Option (Nat × Nat) := (kv ws k).bind pair?
+
+def user? (w : String) : Option Nat :=
+  if w.startsWith "u" then (w.drop 1).toString.toNat? else w.toNat?
+
+def dummyStake : StakeResp := ⟨1, 1, 1, 0, 1, 1, 0⟩
+def dummyClaim : ClaimResp := ⟨1, 1, 1, 0, 1, 1, 0⟩
+def dummyUnstake : UnstakeResp := ⟨1, 0, 1, 1, 1, 1, 0⟩
+
+def stakeResp (ws : List String) : Option StakeResp := do
+  let safe ← kvNat ws "safe"
+  let st ← kvPair ws "st"
+  let b ← kvNat ws "boosted"
+  let lp ← kvPair ws "lpout"
+  let lb ← kvNat ws "lpboosted"
+  pure ⟨safe, st.1, st.2, b, lp.1, lp.2, lb⟩
+
+def claimResp (ws : List String) : Option ClaimResp := do
+  let safe ← kvNat ws "safe"
+  let lp ← kvPair ws "lpnew"
+  let lr ← kvNat ws "lprew"
+  let st ← kvPair ws "stnew"
+  let sr ← kvNat ws "strew"
+  pure ⟨safe, lp.1, lp.2, lr, st.1, st.2, sr⟩
+
+def unstakeResp (ws : List String) : Option UnstakeResp := do
+  let lp ← kvNat ws "lp"
+  let lr ← kvNat ws "lprew"
+  let stk ← kvNat ws "stk"
+  let o ← kvNat ws "other"
+  let un ← kvPair ws "unbond"
+  let sr ← kvNat ws "strew"
+  pure ⟨lp, lr, stk, o, un.1, un.2, sr⟩
+
+/-- (operation with the recorded responses, the same operation with dummy responses) -/
+def parseOp (ws : List String) : Option (Option Op × Op) :=
+  let auth := (kvNat ws "auth").getD 1 == 1
+  match ws with
+  | "stake" :: c :: _ | "stakeFor" :: c :: _ => do
+      let c ← user? c
+      let a ← kvNat ws "lp"
+      let ms ← (kv ws "merge").bind pairs?
+      let n := (kvNat ws "lpfarm").getD 0
+      let probe := { dummyStake with safe := (kvNat ws "safe").getD 1 }
+      pure ((stakeResp ws).map (Op.stake c auth n a ms), Op.stake c auth n a ms probe)
+  | "claim" :: c :: dx :: _ | "claimFor" :: c :: dx :: _ => do
+      let c ← user? c
+      let p ← pair? dx
+      let probe := { dummyClaim with safe := (kvNat ws "safe").getD 1 }
+      pure ((claimResp ws).map (Op.claim c auth p.1 p.2), Op.claim c auth p.1 p.2 probe)
+  | "unstake" :: c :: dx :: _ => do
+      let c ← user? c
+      let p ← pair? dx
+      pure ((unstakeResp ws).map (Op.unstake c p.1 p.2), Op.unstake c p.1 p.2 dummyUnstake)
+  | ["xfer", u, v, dx] => do
+      let p ← pair? dx
+      let o := Op.xfer (← user? u) (← user? v) p.1 p.2
+      pure (some o, o)
+  | "bad" :: _ => some (some .bad, .bad)
+  | _ => some (some .env, .env)
+
+def showPairs (l : List (Nat × Nat)) : String :=
+  if l.isEmpty then "-" else ",".intercalate (l.map fun p => s!"{p.1}:{p.2}")
+
+def showToks (ts : List Tok) : String :=
+  let rows := (ts.zipIdx).filterMap fun (t, i) =>
+    if t.out = 0 then none else some s!"{i + 1}:{t.lpN}:{t.lpA}:{t.stN}:{t.stA}:{t.out}"
+  if rows.isEmpty then "-" else ";".intercalate rows
+
+def showHold (keys : List Nat) (m : Nat → Nat) : String :=
+  showPairs ((keys.map fun k => (k, m k)).filter fun p => p.2 ≠ 0)
+
+def showUsers (s : St) (n : Nat) : String :=
+  " ".intercalate ((List.range n).map fun i =>
+    let u := i + 1
+    let hs := ((List.range s.toks.length).map fun j => (j + 1, s.user u (j + 1))).filter fun p => p.2 ≠ 0
+    s!"u{u}={showPairs hs}")
+
+def showState (d : DS) : String :=
+  let p := d.st.pass
+  s!"dy={showToks d.st.toks} lp={showHold d.lpKeys d.st.holdLp} st={showHold d.stKeys d.st.holdSt} " ++
+  s!"pass={p.ride},{p.other},{p.lp},{p.locked},{p.unbond} {showUsers d.st d.users}"
+
+def showOut (kind : String) (o : Out) : String :=
+  match kind with
+  | "stake" | "stakeFor" => s!"dy={o.dyN}:{o.dyA} boosted={o.o1} lpboosted={o.o2}"
+  | "claim" | "claimFor" => s!"dy={o.dyN}:{o.dyA} lprew={o.o1} strew={o.o2}"
+  | "unstake" => s!"other={o.o1} lprew={o.o2} strew={o.o3} unbond={o.unN}:{o.unA}"
+  | _ => "-"
+
+def addKeys (d : DS) (ws : List String) : DS :=
+  let lk := [kvNat ws "lpfarm", (kvPair ws "lpout").map (·.1), (kvPair ws "lpnew").map (·.1)]
+  let sk := [(kvPair ws "st").map (·.1), (kvPair ws "stnew").map (·.1)]
+  { d with lpKeys := lk.foldl (fun acc k => match k with | some k => insertKey k acc | none => acc) d.lpKeys,
+           stKeys := sk.foldl (fun acc k => match k with | some k => insertKey k acc | none => acc) d.stKeys }
+
+def handle (d : DS) (line : String) : DS × Option String :=
+  match words line with
+  | "W" :: rest =>
+      ({ st := DualYield.init, lpKeys := [], stKeys := [], users := (kvNat rest "users").getD 3 },
+       some (" ".intercalate ("W" :: rest)))
+  | "O" :: n :: rest =>
+      let kind := rest.headD ""
+      match parseOp rest with
+      | none => (d, some s!"R {n} err")
+      | some (some op, _) =>
+          (match step d.st op with
+           | some (s', o) =>
+               let d' := addKeys { d with st := s' } rest
+               (d', some s!"R {n} ok {showOut kind o} | {showState d'}")
+           | none => (d, some s!"R {n} err"))
+      | some (none, probe) =>
+          -- the real call failed (no responses recorded)
+          if (kvNat rest "callee").getD 1 == 0 then (d, some s!"R {n} err")
+          else if (step d.st probe).isSome then (d, some s!"R {n} stuck")
+          else (d, some s!"R {n} err")
+  | _ => (d, none)
+
+end Mx.MetaDriver
+
+def main : IO Unit :=
+  Mx.Proto.mainLoop ({ st := Mx.DualYield.init, lpKeys := [], stKeys := [], users := 3 } : Mx.MetaDriver.DS)
+    Mx.MetaDriver.handle
